@@ -8,14 +8,15 @@ Open Scope N_scope.
 Section Srv.
 Variable mfa : str -> option str.
 Variable cfg : scfg.
+Variable srcok : str -> nat -> bool.
 Variable base : list str.
 
 (** A request whose escaped segments decode (compositionally) to plain, slash-free segments
     is dispatched on exactly those segments. *)
 Lemma serve_routes st m body segs segs' :
   segs' <> [] -> Forall2 dec_as segs segs' -> Forall nosl segs' -> Forall (fun s => plain_seg s = true) segs' ->
-  serve mfa cfg base st {| rq_meth := m; rq_path := join_slash segs; rq_body := body |}
-  = dispatch mfa cfg st m body (route base m segs').
+  serve mfa cfg srcok base st {| rq_meth := m; rq_path := join_slash segs; rq_body := body |}
+  = dispatch mfa cfg srcok st m body (route base m segs').
 Proof.
   intros NE D F P. unfold serve. cbn [rq_path rq_meth rq_body].
   rewrite (unescape_join _ _ D). rewrite (clean_path_plain _ NE F P). rewrite str_eqb_refl. cbn [negb].
@@ -39,7 +40,7 @@ Proof. intros H. apply Forall_forall. apply forallb_forall. exact H. Qed.
 
 Lemma api_reflects_store st rq out :
   no_enc_slash (rq_path rq) = true ->
-  spec_serve mfa cfg base st rq = Some out -> serve mfa cfg base st rq = out.
+  spec_serve mfa cfg srcok base st rq = Some out -> serve mfa cfg srcok base st rq = out.
 Proof.
   destruct rq as [m wire body]. unfold no_enc_slash, spec_serve, spec_route. cbn [rq_path rq_meth rq_body].
   destruct (split_on slash wire) as [|hd segs] eqn:S; [discriminate|].
@@ -152,8 +153,8 @@ Qed.
 
 Lemma client_roundtrip name tail st m body :
   good_name name -> Forall good_seg base -> Forall good_seg tail ->
-  serve mfa cfg base st {| rq_meth := m; rq_path := client_wire (join_slash base) (client_uri name tail); rq_body := body |}
-  = dispatch mfa cfg st m body (route base m (base ++ [s_api; s_v1; s_mailbox; name] ++ tail)).
+  serve mfa cfg srcok base st {| rq_meth := m; rq_path := client_wire (join_slash base) (client_uri name tail); rq_body := body |}
+  = dispatch mfa cfg srcok st m body (route base m (base ++ [s_api; s_v1; s_mailbox; name] ++ tail)).
 Proof.
   intros GN GB GT. rewrite (client_wire_is name tail GN GB GT).
   destruct GN as [Hb [Hs [Hsl [N0 [N1 N2]]]]]. destruct good_lits as [Ga [Gv [Gm _]]].
@@ -197,32 +198,32 @@ Qed.
 
 (* -- no redirect from a handler *)
 
-Lemma run_handler_no_301 st h name id num body : fst (snd (run_handler mfa cfg st h name id num body)) <> S301.
+Lemma run_handler_no_301 st h name id num body : fst (snd (run_handler mfa cfg srcok st h name id num body)) <> S301.
 Proof.
   unfold run_handler. destruct (mfa name) as [mb|]; [|discriminate].
   destruct h.
   - destruct (exec_spec cfg st (Lst mb)) as [[s o] e]. discriminate.
   - destruct (exec_spec cfg st (Purge mb)) as [[s o] e]. destruct (err_of_res (unit_res o)); discriminate.
-  - destruct (mgr_get (st_get cfg st mb id)) as [[v|] []]; discriminate.
+  - destruct (mgr_get (st_get cfg srcok st mb id)) as [[v|] []]; discriminate.
   - destruct body; try discriminate. destruct (exec_spec cfg st (Seen mb (lit_handle id))) as [[s o] e]. destruct (err_of_res (unit_res o)); discriminate.
   - destruct (exec_spec cfg st (Remove mb (lit_handle id))) as [[s o] e]. destruct (err_of_res (unit_res o)); discriminate.
-  - destruct (mgr_get (st_get cfg st mb id)) as [[v|] []]; discriminate.
-  - destruct (mgr_get (st_get cfg st mb id)) as [[v|] []]; discriminate.
-  - destruct (mgr_get (st_get cfg st mb id)) as [[v|] []]; discriminate.
-  - destruct (mgr_get (st_get cfg st mb id)) as [[v|] []]; discriminate.
+  - destruct (mgr_get (st_get cfg srcok st mb id)) as [[v|] []]; discriminate.
+  - destruct (mgr_get (st_get cfg srcok st mb id)) as [[v|] []]; discriminate.
+  - destruct (mgr_get (st_get cfg srcok st mb id)) as [[v|] []]; discriminate.
+  - destruct (mgr_get (st_get cfg srcok st mb id)) as [[v|] []]; discriminate.
   - destruct (parse_uint32 num) as [n|]; [|discriminate].
-    destruct (mgr_get (st_get cfg st mb id)) as [[v|] []]; cbn [h_uiatt]; try discriminate.
+    destruct (mgr_get (st_get cfg srcok st mb id)) as [[v|] []]; cbn [h_uiatt]; try discriminate.
     destruct (n <? att_count (m_tag (snd v))); discriminate.
 Qed.
 
 Lemma client_send_handler st m body name tail h id :
   good_name name -> Forall good_seg base -> Forall good_seg tail ->
   route base m (base ++ [s_api; s_v1; s_mailbox; name] ++ tail) = RHandler h name id [] ->
-  client_send mfa cfg base (join_slash base) st m (client_uri name tail) body = run_handler mfa cfg st h name id [] body.
+  client_send mfa cfg srcok base (join_slash base) st m (client_uri name tail) body = run_handler mfa cfg srcok st h name id [] body.
 Proof.
   intros GN GB GT R. unfold client_send. rewrite (client_roundtrip name tail st m body GN GB GT), R. cbn [dispatch].
   pose proof (run_handler_no_301 st h name id [] body) as N3.
-  destruct (run_handler mfa cfg st h name id [] body) as [st1 [s p]]. cbn [snd fst] in N3.
+  destruct (run_handler mfa cfg srcok st h name id [] body) as [st1 [s p]]. cbn [snd fst] in N3.
   destruct s; try reflexivity. congruence.
 Qed.
 
@@ -242,17 +243,18 @@ Proof. intros [_ P]. apply plain_seg_iff in P. tauto. Qed.
 
 Ltac cs_rw H :=
   match goal with
-  | |- context [client_send ?a ?b ?c ?d ?e ?f ?g ?h] =>
+  | |- context [client_send ?a ?b ?c ?d ?e ?f ?g ?h ?i] =>
       let E := fresh "E" in
-      assert (E : client_send a b c d e f g h = _) by exact H; rewrite E; clear E
+      assert (E : client_send a b c d e f g h i = _) by exact H; rewrite E; clear E
   end.
 
 Lemma client_op_effect st op mb :
+  (forall m k, srcok m k = true) ->
   basic_op op = true -> good_name (cop_name op) -> op_id_ok op -> Forall good_seg base ->
   mfa (cop_name op) = Some mb ->
-  spec_cop mfa cfg st op = Some (client_do mfa cfg base (join_slash base) st op).
+  spec_cop mfa cfg st op = Some (client_do mfa cfg srcok base (join_slash base) st op).
 Proof.
-  intros B GN GI GB M.
+  intros SK B GN GI GB M.
   assert (N0 : cop_name op <> []) by (destruct GN as [_ [_ [_ [N _]]]]; exact N).
   destruct good_lits as [_ [_ [_ Gs]]].
   destruct op; try discriminate; cbn [cop_name op_id_ok] in *; unfold spec_cop; cbn [cop_name]; rewrite M; f_equal;
@@ -262,13 +264,13 @@ Proof.
     unfold run_handler. rewrite M. destruct (exec_spec cfg st (Lst mb)) as [[s o] e]. reflexivity.
   - (* GetMessage *)
     unfold c_get. cs_rw (client_send_handler st GET BBad name [id] HShow id GN GB (Forall_cons _ GI (Forall_nil _)) (route_msg GET name id N0 (good_seg_nonempty _ GI))).
-    unfold run_handler. rewrite M, st_get_spec. destruct (spec_get cfg st mb id); reflexivity.
+    unfold run_handler. rewrite M, st_get_spec. destruct (spec_get cfg st mb id) as [v| |]; cbn [with_src ans_of_res ga_msg ga_err ga_src mgr_get]; rewrite ?SK; reflexivity.
   - (* MarkSeen *)
     unfold c_unit. cs_rw (client_send_handler st PATCH BTrue name [id] HSeen id GN GB (Forall_cons _ GI (Forall_nil _)) (route_msg PATCH name id N0 (good_seg_nonempty _ GI))).
     unfold run_handler. rewrite M. cbn [exec_spec]. destruct (find_h mb (lit_handle id) (live st)); reflexivity.
   - (* GetMessageSource *)
     unfold c_src. cs_rw (client_send_handler st GET BBad name [id; s_source] HSrc id GN GB (Forall_cons _ GI (Forall_cons _ Gs (Forall_nil _))) (route_src name id N0 (good_seg_nonempty _ GI))).
-    unfold run_handler. rewrite M, st_get_spec. destruct (spec_get cfg st mb id); reflexivity.
+    unfold run_handler. rewrite M, st_get_spec. destruct (spec_get cfg st mb id) as [v| |]; cbn [with_src ans_of_res ga_msg ga_err ga_src mgr_get]; rewrite ?SK; reflexivity.
   - (* DeleteMessage *)
     unfold c_unit. cs_rw (client_send_handler st DELETE BBad name [id] HDel id GN GB (Forall_cons _ GI (Forall_nil _)) (route_msg DELETE name id N0 (good_seg_nonempty _ GI))).
     unfold run_handler. rewrite M. cbn [exec_spec]. destruct (find_h mb (lit_handle id) (live st)); reflexivity.
@@ -282,6 +284,7 @@ End Srv.
 (* ------------------------------------------------------------------ the open finding *)
 
 Definition mfa_id (s : str) : option str := Some s.
+Definition src_all (_ : str) (_ : nat) : bool := true.
 Definition cfg0 : scfg := {| c_cap := O; c_max := 0 |}.
 Definition mb_st : str := [115; 47; 116].          (* "s/t" *)
 Definition st_one : spec_store := fst (fst (exec_spec cfg0 spec_init (Add mb_st 0%Z 1 148))).
@@ -289,8 +292,8 @@ Definition st_one : spec_store := fst (fst (exec_spec cfg0 spec_init (Add mb_st 
 (** ListMailbox("s/t") is served as "message t of mailbox s": the client reports an error
     although the mailbox holds a message. *)
 Lemma client_slash_witness :
-  spec_cop mfa_id cfg0 st_one (CList mb_st) <> Some (client_do mfa_id cfg0 [] [] st_one (CList mb_st))
-  /\ snd (client_do mfa_id cfg0 [] [] st_one (CList mb_st)) = CErr
+  spec_cop mfa_id cfg0 st_one (CList mb_st) <> Some (client_do mfa_id cfg0 src_all [] [] st_one (CList mb_st))
+  /\ snd (client_do mfa_id cfg0 src_all [] [] st_one (CList mb_st)) = CErr
   /\ exists v, option_map snd (spec_cop mfa_id cfg0 st_one (CList mb_st)) = Some (COkList mb_st [v]).
 Proof.
   split; [vm_compute; discriminate|]. split; [vm_compute; reflexivity|]. eexists. vm_compute. reflexivity.
@@ -301,8 +304,8 @@ Definition rq_slash : request := {| rq_meth := GET; rq_path := [47;97;112;105;47
 
 Lemma api_slash_witness :
   no_enc_slash (rq_path rq_slash) = false /\
-  exists out, spec_serve mfa_id cfg0 [] st_one rq_slash = Some out /\ serve mfa_id cfg0 [] st_one rq_slash <> out
-              /\ fst (snd out) = S200 /\ fst (snd (serve mfa_id cfg0 [] st_one rq_slash)) = S404.
+  exists out, spec_serve mfa_id cfg0 src_all [] st_one rq_slash = Some out /\ serve mfa_id cfg0 src_all [] st_one rq_slash <> out
+              /\ fst (snd out) = S200 /\ fst (snd (serve mfa_id cfg0 src_all [] st_one rq_slash)) = S404.
 Proof.
   split; [vm_compute; reflexivity|]. eexists. split; [vm_compute; reflexivity|].
   split; [vm_compute; discriminate|]. split; vm_compute; reflexivity.
